@@ -12,20 +12,95 @@ def flagIdx (w : Nat) : Nat :=
   w / 32768 % 2 + 2 * (w / 1024 % 2) + 4 * (w / 512 % 2) + 8 * (w / 256 % 2) +
     16 * (w / 128 % 2) + 32 * (w / 32 % 2) + 64 * (w / 16 % 2)
 
-theorem flagIdx_table : ∀ hi < 256, ∀ lo < 256,
-    (hi * 256 + lo) &&& 0x87B0 = hi * 256 + lo → hi * 256 + lo = flagSet (flagIdx (hi * 256 + lo)) := by
+theorem flagSet_bits (a b c d e g h : Nat) (ha : a < 2) (hb : b < 2) (hc : c < 2) (hd : d < 2)
+    (he : e < 2) (hg : g < 2) (hh : h < 2) :
+    flagSet (a + 2 * b + 4 * c + 8 * d + 16 * e + 32 * g + 64 * h)
+      = a * 32768 + b * 1024 + c * 512 + d * 256 + e * 128 + g * 32 + h * 16 := by
+  generalize hi : a + 2 * b + 4 * c + 8 * d + 16 * e + 32 * g + 64 * h = i
+  have h0 : i % 2 = a := by omega
+  have h1 : i / 2 % 2 = b := by omega
+  have h2 : i / 4 % 2 = c := by omega
+  have h3 : i / 8 % 2 = d := by omega
+  have h4 : i / 16 % 2 = e := by omega
+  have h5 : i / 32 % 2 = g := by omega
+  have h6 : i / 64 % 2 = h := by omega
+  unfold flagSet
+  rw [h0, h1, h2, h3, h4, h5, h6]
+
+theorem zero_bit (f k : Nat) (h : f &&& 0x87B0 = f) (hk : (0x87B0 : Nat).testBit k = false) :
+    f / 2 ^ k % 2 = 0 := by
+  have h1 : (f &&& 0x87B0).testBit k = (f.testBit k && (0x87B0 : Nat).testBit k) := Nat.testBit_and _ _ _
+  rw [h, hk, Bool.and_false] at h1
+  rw [Nat.testBit_eq_decide_div_mod_eq] at h1
+  have := of_decide_eq_false h1
+  omega
+
+theorem lo_bits : ∀ lo < 256, (lo % 2 = 0 ∧ lo / 2 % 2 = 0 ∧ lo / 4 % 2 = 0 ∧ lo / 8 % 2 = 0 ∧
+    lo / 64 % 2 = 0) → lo = (lo / 128 % 2) * 128 + (lo / 32 % 2) * 32 + (lo / 16 % 2) * 16 := by
   decide +kernel
 
-theorem flags_eq_flagSet (f : Nat) (h : f &&& Mask.ALLFLAGS = f) :
-    ∃ i, i < 128 ∧ f = flagSet i := by
+theorem hi_bits : ∀ hi < 256, (hi / 8 % 2 = 0 ∧ hi / 16 % 2 = 0 ∧ hi / 32 % 2 = 0 ∧ hi / 64 % 2 = 0) →
+    hi = (hi / 128 % 2) * 128 + (hi / 4 % 2) * 4 + (hi / 2 % 2) * 2 + hi % 2 := by
+  decide +kernel
+
+theorem flags_eq_flagSet_idx (f : Nat) (h : f &&& 0x87B0 = f) : f = flagSet (flagIdx f) := by
   have hlt : f < 65536 := by
-    have : f &&& Mask.ALLFLAGS ≤ Mask.ALLFLAGS := Nat.and_le_right
+    have : f &&& 0x87B0 ≤ 0x87B0 := Nat.and_le_right
     rw [h] at this
-    simp only [Mask.ALLFLAGS] at this
     omega
-  have := flagIdx_table (f / 256) (by omega) (f % 256) (by omega)
-  rw [Nat.div_add_mod' f 256] at this
-  exact ⟨flagIdx f, by unfold flagIdx; omega, this h⟩
+  -- bits of the two bytes against bits of the word
+  have l0 : f % 256 % 2 = f / 1 % 2 := by omega
+  have l1 : f % 256 / 2 % 2 = f / 2 % 2 := by omega
+  have l2 : f % 256 / 4 % 2 = f / 4 % 2 := by omega
+  have l3 : f % 256 / 8 % 2 = f / 8 % 2 := by omega
+  have l4 : f % 256 / 16 % 2 = f / 16 % 2 := by omega
+  have l5 : f % 256 / 32 % 2 = f / 32 % 2 := by omega
+  have l6 : f % 256 / 64 % 2 = f / 64 % 2 := by omega
+  have l7 : f % 256 / 128 % 2 = f / 128 % 2 := by omega
+  have u0 : f / 256 % 2 = f / 256 % 2 := rfl
+  have u1 : f / 256 / 2 % 2 = f / 512 % 2 := by rw [Nat.div_div_eq_div_mul]
+  have u2 : f / 256 / 4 % 2 = f / 1024 % 2 := by rw [Nat.div_div_eq_div_mul]
+  have u3 : f / 256 / 8 % 2 = f / 2048 % 2 := by rw [Nat.div_div_eq_div_mul]
+  have u4 : f / 256 / 16 % 2 = f / 4096 % 2 := by rw [Nat.div_div_eq_div_mul]
+  have u5 : f / 256 / 32 % 2 = f / 8192 % 2 := by rw [Nat.div_div_eq_div_mul]
+  have u6 : f / 256 / 64 % 2 = f / 16384 % 2 := by rw [Nat.div_div_eq_div_mul]
+  have u7 : f / 256 / 128 % 2 = f / 32768 % 2 := by rw [Nat.div_div_eq_div_mul]
+  have hsplit : f = f / 256 * 256 + f % 256 := by omega
+  have hl : f % 256 < 256 := by omega
+  have hu : f / 256 < 256 := by omega
+  clear hlt
+  have b0 := zero_bit f 0 h (by decide)
+  have b1 := zero_bit f 1 h (by decide)
+  have b2 := zero_bit f 2 h (by decide)
+  have b3 := zero_bit f 3 h (by decide)
+  have b6 := zero_bit f 6 h (by decide)
+  have b11 := zero_bit f 11 h (by decide)
+  have b12 := zero_bit f 12 h (by decide)
+  have b13 := zero_bit f 13 h (by decide)
+  have b14 := zero_bit f 14 h (by decide)
+  simp only [Nat.reducePow] at b0 b1 b2 b3 b6 b11 b12 b13 b14
+  have hlo := lo_bits (f % 256) hl ⟨l0.trans b0, l1.trans b1, l2.trans b2, l3.trans b3, l6.trans b6⟩
+  have hhi := hi_bits (f / 256) hu ⟨u3.trans b11, u4.trans b12, u5.trans b13, u6.trans b14⟩
+  rw [l7, l5, l4] at hlo
+  rw [u7, u2, u1] at hhi
+  unfold flagIdx
+  rw [flagSet_bits _ _ _ _ _ _ _ (Nat.mod_lt _ (by decide)) (Nat.mod_lt _ (by decide))
+    (Nat.mod_lt _ (by decide)) (Nat.mod_lt _ (by decide)) (Nat.mod_lt _ (by decide))
+    (Nat.mod_lt _ (by decide)) (Nat.mod_lt _ (by decide))]
+  generalize f / 32768 % 2 = a15 at *
+  generalize f / 1024 % 2 = a10 at *
+  generalize f / 512 % 2 = a9 at *
+  generalize f / 256 % 2 = a8 at *
+  generalize f / 128 % 2 = a7 at *
+  generalize f / 32 % 2 = a5 at *
+  generalize f / 16 % 2 = a4 at *
+  generalize f / 256 = hi at *
+  generalize f % 256 = lo at *
+  subst hsplit hhi hlo
+  simp only [Nat.add_mul, Nat.mul_assoc, Nat.reduceMul, Nat.add_assoc]
+theorem flags_eq_flagSet (f : Nat) (h : f &&& Mask.ALLFLAGS = f) :
+    ∃ i, i < 128 ∧ f = flagSet i :=
+  ⟨flagIdx f, by unfold flagIdx; omega, flags_eq_flagSet_idx f h⟩
 
 /-- `Header.parse` of a written header followed by the message body -/
 theorem header_parse_built (h : Header) (qd an ns ar : Nat) (body : Bytes) (hid : h.id < 65536)
